@@ -217,6 +217,42 @@ def bounded_contract(ctx, name, n=None):
         ctx.samples.append({"concrete_case_of": name, "args": valid[0]["args"], "status": valid[0]["status"]})
 
 
+def bounded_run(ctx, module, params=None, timeout=None, jit=False):
+    """Run a bounded stand-in module (rt/bounded_*.py) on the real code; one Ob per contract clause."""
+    timeout = timeout or (900 if ctx.tier == "quick" else 3600)
+    res = venv_run(module, {"tier": ctx.tier, "seed": ctx.seed, "params": params or {}}, timeout=timeout, jit=jit)
+    short = module.split(".")[-1]
+    if "error" in res and not res.get("clauses"):
+        ctx.obs.append(Ob(f"{short}:run", "G4", "bounded", "unknown", reason=str(res["error"])[:300] + str(res.get("trace", ""))[-300:]))
+        return res
+    fails = {}
+    for f in res.get("failures", []):
+        fails.setdefault(f["clause"], f)
+    for clause, cnt in res.get("clauses", {}).items():
+        bad = cnt.get("fail", 0)
+        ob = Ob(f"{short}:{clause}", "G4", "bounded", "bounded-fail" if bad else "bounded-pass",
+                backend="real code under /venv/bin/python" + ("" if jit else " (NUMBA_DISABLE_JIT=1)"),
+                clause=f"{cnt.get('pass', 0)} passed, {bad} failed", func=module)
+        if bad:
+            ob.replay = {"reproduced": True, "origin": "bounded-enumeration", "case": fails.get(clause)}
+            ob.reason = json.dumps(fails.get(clause), default=str)[:300]
+        ctx.obs.append(ob)
+    if "error" in res:
+        ctx.obs.append(Ob(f"{short}:run", "G4", "bounded", "unknown", reason=str(res["error"])[:300]))
+    if not res.get("clauses"):
+        ctx.obs.append(Ob(f"{short}:run", "G4", "bounded", "unknown", reason="no cases evaluated"))
+    ctx.bounded_parts.append({"contract": module, "space": res.get("space", ""), "bound": res.get("bound", ""),
+                              "evaluations": res.get("evaluations", 0),
+                              "distinct_nontrivial": res.get("distinct_nontrivial", 0),
+                              "exhaustive": bool(res.get("exhaustive")), "wall_s": res.get("wall_s")})
+    for smp in res.get("samples", [])[:2]:
+        if len(ctx.samples) < 4:
+            ctx.samples.append(smp)
+    for n in res.get("notes", []):
+        ctx.add_assumption(n)
+    return res
+
+
 # ---------------------------------------------------------------------------------------- known findings
 def load_known():
     path = os.path.join(VERIF, "KNOWN_FINDINGS.txt")
